@@ -839,3 +839,6 @@ V("c13-matcher-writes-info", "C13", "fire", "C13.R1",
 V("c13-cache-converted-default", "C13", "fire", "C13.R",
   (MTF, "                default = ci.getdefault()\n                if default is None:",
         "                default = ci.getdefault()\n                ci.adddefault('x', None)\n                if default is None:"))
+V("c13-inplace-default-lists", "C13", "fire", "C13.R3",
+  (MTF, "                    for key, val in v.items():\n                        v[key] = [vi.convert(ci.datatype) for vi in val]",
+        "                    for val in v.values():\n                        val[:] = [vi.convert(ci.datatype) for vi in val]"))
